@@ -40,6 +40,16 @@ def run(cmd, timeout=None, cwd=None, check=True, env=None, input=None):
         raise CheckError('command failed (%d): %s\n%s\n%s' % (p.returncode, ' '.join(cmd)[:400], p.stdout[-3000:], p.stderr[-3000:]))
     return dict(rc=p.returncode, out=p.stdout, err=p.stderr, wall=time.time() - t0, timeout=False)
 
+import threading
+_once_lock = threading.Lock(); _once_locks = {}; _once_vals = {}
+def once(key, fn):
+    """thread-safe memoisation of an expensive build step"""
+    with _once_lock:
+        lk = _once_locks.setdefault(key, threading.Lock())
+    with lk:
+        if key not in _once_vals: _once_vals[key] = fn()
+        return _once_vals[key]
+
 def pmap(fn, items, jobs=None):
     with ThreadPoolExecutor(max_workers=jobs or NPROC) as ex:
         return list(ex.map(fn, items))
